@@ -27,7 +27,7 @@ META = {
              'success, status 2 and non-empty stderr on any error. Signature = (command, file-kind pattern, options, '
              'outcome).'),
     'workers': {'quick': 8, 'thorough': 16},
-    'watchdog': {'quick': 300, 'thorough': 1800},
+    'watchdog': {'quick': 600, 'thorough': 3600},
 }
 
 
